@@ -201,6 +201,11 @@ def jobs(tier):
             J(L=L, kind='p2p', reent='all')
             J(L=L, kind='p2p', reent='one')
         J(L=15, kind='pdu2', reent='all')
+        # sizes above 255 bytes (second size byte, > 36 packets): concrete window classes
+        for wins in ((2, 3), (255, 255), (1, 255)):
+            J(L=260, kind='p2p', windows=wins, bystander=False)
+        J(L=300, kind='pdu2', windows=(1, 1), bystander=False)
+        J(L=257, kind='bam255', windows=(1, 1), bystander=False)
         # other address values, incl. 0 (valid and falsy) and 253
         for ad in ([0, 0x20, 0x30], [0x10, 0, 0x30], [253, 1, 0]):
             for L in (8, 15):
@@ -242,7 +247,7 @@ def jobs(tier):
 
 def meta(tier):
     return {
-        'bounds': ['payload lengths: ' + (str(QUICK_L) if tier == 'quick' else '0..120 and 1778,1779,1784,1785'),
+        'bounds': ['payload lengths: ' + (str(QUICK_L) + ' and 257, 260, 300 with concrete window classes' if tier == 'quick' else '0..120 and 1778,1779,1784,1785'),
                    'payload bytes, priority, data page, PDU format (PDU1 class 0..239 minus protocol PGNs / PDU2 class 240..255 with symbolic group extension): symbolic',
                    'max_cmdt_packets of both stacks symbolic 1..255 (concrete classes for the 255-packet transfers and most concurrent shapes)',
                    'schedules: all interleavings of frame deliveries and job passes (DESIGN 3, reductions 1-3); re-entrant delivery: none / all frames / one frame at a symbolic index',
